@@ -89,3 +89,30 @@ inst!(c02_full_custom_0x2_k15, 7, full_band::<0, 2, 2, 15, 0>());
 inst!(c02_full_custom_2x0_k15, 7, full_band::<2, 0, 2, 15, 0>());
 inst!(c02_full_global_0x2, 7, full_band::<0, 2, 2, 0, 1>());
 inst!(c02_full_local_0x2, 7, full_band::<0, 2, 2, 0, 3>());
+
+/// Full band, concrete scoring scheme (see c01::SCHEMES), symbolic clips per MASK and symbolic sequences.
+#[cfg(kani)]
+pub fn full_band_fixed<const M: usize, const N: usize, const L: usize, const MASK: u8, const SCHEME: usize, const ENTRY: u8>() {
+    let p = crate::c01::fixed_params::<MASK>(SCHEME);
+    let x: [u8; M] = kani::any();
+    let y: [u8; N] = kani::any();
+    let mut al = banded::Aligner::with_capacity_and_scoring(M, N, scoring_of(p), M + N + 1, 0);
+    let (a, eff, kept) = match ENTRY {
+        0 => (al.custom(&x[..], &y[..]), p.clip, true),
+        1 => (al.global(&x[..], &y[..]), [MIN_SCORE; 4], true),
+        2 => (al.semiglobal(&x[..], &y[..]), [MIN_SCORE, MIN_SCORE, 0, 0], false),
+        _ => (al.local(&x[..], &y[..]), [0; 4], false),
+    };
+    let pe = Params { clip: eff, ..p };
+    path_valid(&pe, &x, &y, &a, kept);
+    competitor_bound::<M, N, L>(&pe, &x, &y, a.score);
+    kani::cover!(a.operations.len() >= 1, "non-empty path");
+    core::mem::forget(al);
+    core::mem::forget(a);
+}
+inst!(c02_fixed_custom_1x1_k15_s0, 6, full_band_fixed::<1, 1, 2, 15, 0, 0>());
+inst!(c02_fixed_custom_1x1_k8_s0, 6, full_band_fixed::<1, 1, 2, 8, 0, 0>());
+inst!(c02_fixed_global_1x2_s1, 7, full_band_fixed::<1, 2, 3, 0, 1, 1>());
+inst!(c02_fixed_local_2x2_s0, 8, full_band_fixed::<2, 2, 4, 0, 0, 3>());
+inst!(c02_fixed_custom_2x2_k15_s0, 8, full_band_fixed::<2, 2, 4, 15, 0, 0>());
+inst!(c02_fixed_global_0x2_s0, 7, full_band_fixed::<0, 2, 2, 0, 0, 1>());
